@@ -903,7 +903,10 @@ where
             counter
         ));
 
-        let config = MmapVecConfig::default();
+        // Size the backing file / mapping for the requested capacity: the zero-fill
+        // below covers `capacity` elements
+        let mut config = MmapVecConfig::default();
+        config.initial_capacity = config.initial_capacity.max(capacity);
         let mut vec = Self::create(&file_path, config)?;
         vec.is_temp_file = true; // Mark as temporary for cleanup
 
